@@ -34,6 +34,7 @@ def main(argv):
             src = open(path).read()
             if src.count(old) != 1:
                 results.append((os.path.basename(f), "STALE (pattern occurs %d times)" % src.count(old)))
+                print("%-40s %s" % results[-1])
                 continue
             open(path, "w").write(src.replace(old, new))
             env = dict(os.environ, VERIF_REPO=d, VERIF_NO_EVIDENCE="1")
